@@ -651,7 +651,102 @@ def rule_recursion(ck):
         ck.ob("loop.recursion", f"{key}/{kind}", ok, why, f0.loc(), what=f"recursion through {short(owners[0])} lost its bound ({kind})")
 
 
+def _peel_casts(e):
+    while isinstance(e, tuple) and e and e[0] in ("cast", "ref", "try"):
+        e = e[2] if e[0] == "cast" else e[1]
+    return e
+
+
+def _nonzero_edges(op, x_left, c):
+    """for `X op c` (x_left) or `c op X`: which switch arm values (0 = false, 1 = true) guarantee X != 0 (X unsigned
+    or already known non-negative is NOT assumed: only tests that exclude 0 itself are accepted)"""
+    if not x_left:
+        op = {"Lt": "Gt", "Gt": "Lt", "Le": "Ge", "Ge": "Le"}.get(op, op)
+    if op == "Eq" and c == 0:
+        return {0}
+    if op == "Ne" and c == 0:
+        return {1}
+    if op == "Gt" and c >= 0:
+        return {1}
+    if op == "Ge" and c >= 1:
+        return {1}
+    if op == "Lt" and 0 <= c <= 1:
+        return {0}       # not (X < 1)  =>  X >= 1
+    if op == "Le" and c == 0:
+        return {0}       # not (X <= 0) =>  X > 0
+    return set()
+
+
+def rule_divisors(ck):
+    """integer division / remainder panics on a zero divisor whatever the build profile"""
+    prog = ck.prog
+    ck.rule("panic.zero_divisors", "every integer `/` and `%` in the debugger core, the DAP adapter and the command layer (the sites where rustc emits a division-by-zero assertion) has a divisor that cannot be zero: a non-zero constant, size_of::<T>() of a sized non-ZST type, or a value for which a dominating comparison with a constant has excluded zero on every path to the operation")
+    sites = []
+    for p, f in sorted(prog.fns.items()):
+        if not (f.file.startswith("src/dap") or f.file.startswith("src/debugger") or f.file.startswith("src/ui/command") or f.file.startswith("src/ui/console")):
+            continue
+        for bi, b in enumerate(f.blocks):
+            t = b["term"]
+            if t["t"] == "assert" and t.get("kind") in ("divzero", "remzero") and not b["cleanup"]:
+                sites.append((p, f, bi, t))
+    ck.floor("panic.zero_divisors", "integer division / remainder sites", len(sites), 8)
+    nth = {}
+    for p, f, bi, t in sites:
+        ck.saw(f)
+        owner = short(owner_fn(p))
+        n = nth.get(owner, 0)
+        nth[owner] = n + 1
+        key = f"{owner}#{n}"
+        cond = expr_of(f, t["cond"], depth=10)
+        # cond = Eq(divisor, 0)
+        div = None
+        if cond[0] == "bin" and cond[1] == "Eq":
+            div = cond[2] if cond[3] == ("const", 0) else cond[3] if cond[2] == ("const", 0) else None
+        if div is None:
+            ck.ob("panic.zero_divisors", f"{key}/divisor-identified", False, expr_str(cond, 6), f.loc(bi))
+            continue
+        d0 = _peel_casts(div)
+        if d0[0] == "const":
+            ck.ob("panic.zero_divisors", f"{key}/constant-divisor-non-zero", d0[1] != 0, f"divisor {d0[1]}", f.loc(bi))
+            continue
+        if d0[0] in ("constty", "enumconst"):
+            ck.ob("panic.zero_divisors", f"{key}/named-constant-divisor", True, f"divisor {d0[1:]}", f.loc(bi))
+            continue
+        if d0[0] == "call" and re.search(r"mem::size_of$", d0[1]):
+            gen = " ".join(d0[3].gargs) if len(d0) > 3 and hasattr(d0[3], "gargs") else ""
+            ck.ob("panic.zero_divisors", f"{key}/size_of-divisor", bool(gen) and "()" not in gen, f"size_of::<{gen}>()", f.loc(bi))
+            continue
+        # guarded by a dominating comparison with a constant
+        ok = False
+        seen = []
+        for b2, blk in enumerate(f.blocks):
+            t2 = blk["term"]
+            if t2["t"] != "switch" or not f.dominates(b2, bi):
+                continue
+            e = expr_of(f, t2["discr"], depth=10)
+            if e[0] != "bin" or e[1] not in ("Eq", "Ne", "Gt", "Ge", "Lt", "Le"):
+                continue
+            a, b_ = _peel_casts(e[2]), _peel_casts(e[3])
+            if b_[0] == "const" and a == d0:
+                good = _nonzero_edges(e[1], True, b_[1])
+            elif a[0] == "const" and b_ == d0:
+                good = _nonzero_edges(e[1], False, a[1])
+            else:
+                continue
+            seen.append(expr_str(e, 5))
+            if not good:
+                continue
+            bad_targets = [tg for v, tg in t2["arms"] if int(v) not in good]
+            listed = {int(v) for v, tg in t2["arms"]}
+            if not ({0, 1} - listed) <= good:
+                bad_targets.append(t2["otherwise"])
+            if all(bi not in f.reach_from([tg], avoid={b2}) for tg in bad_targets):
+                ok = True
+        ck.ob("panic.zero_divisors", f"{key}/zero-excluded-before-the-operation", ok, f"divisor {expr_str(d0, 5)[:80]}; tests seen: {seen}", f.loc(bi), what="a divisor taken from input (client text, debuggee data) can be zero here: the debugger panics")
+
+
 def run(ck):
+    rule_divisors(ck)
     rule_unsafe(ck)
     rule_inttok(ck)
     rule_taint(ck)
